@@ -60,6 +60,9 @@ def verify_contract(repo: str, con: Any, contracts_by_target: dict[str, Any], mo
     ctx.cross_check_every = 4 if timeout_ms > 10000 else 0
     budget = con.__dict__.get("budget_s", 150 if timeout_ms <= 10000 else 900)
     if mode == "small":
+        # the search only looks for models: short solver calls, no reseeded retries
+        ctx.prove_timeout_ms = 3000
+        ctx.single_attempt = True
         budget = min(budget, 120)    # the counterexample search is an extra, it must not dominate a check
     ctx.deadline = time.time() + budget
     ctx.name_prefix = f"{con.target}{'' if mode == 'main' else '{' + mode + '}'}"
